@@ -243,7 +243,9 @@ class EdgeLib(LibBase):
 
     def model_to_json(self, st, m, ob):
         old = getattr(ob.ctx, "old", None)
-        return {"entry": S.dump_state(self, old, m) if old is not None else None, "exit": S.dump_state(self, st, m)}
+        args = getattr(ob.ctx, "args", None) or {}
+        return {"entry": S.dump_state(self, old, m) if old is not None else None, "exit": S.dump_state(self, st, m),
+                "args": {k: S.dump_value(v, m) for k, v in args.items() if isinstance(v, V.Value)}}
 
     # ------------------------------------------------------------------ executor hooks
     def self_attr(self, ctx, attr, st):
